@@ -13,6 +13,7 @@ import PeliteModel.Driver.Json
 import PeliteModel.Driver.Dirs
 import PeliteModel.Driver.Resources
 import PeliteModel.Driver.PatternSem
+import PeliteModel.Driver.Fields
 -- IMPORT-MARKER (add `import PeliteModel.Driver.<M>` above this line)
 /-! `model`: the line-protocol driver.  One answer line per operation line; the part after ` ## `
 is the executable specification's answer and whether the input meets the theorem's hypotheses. -/
@@ -34,6 +35,7 @@ def handlers : List Handler := [
   , dispatchDirs
   , dispatchResources
   , dispatchPatternSem
+  , dispatchFields
   -- HANDLER-MARKER (add `, dispatch<M>` above this line)
   ]
 
